@@ -248,7 +248,7 @@ func c09GlobalDef(g *oc.Global) string {
 
 // ---------- generator ----------
 
-var c09ASPool = []uint32{100, 200, 300, 70000, 64512, 65000, 65001, 65002, 65534, 4200000000, 4294967294, 64511, 65535, 4199999999, 4294967295, 23456, 0}
+var c09ASPool = []uint32{100, 200, 300, 70000, 64512, 65000, 65001, 65002, 65534, 4200000000, 4294967294, 64511, 65535, 4199999999, 4294967295, 23456, 0, 261208, 130048, 131070, 65536, 4200000000 + 100, 196607}
 
 type c09Gen struct {
 	r *vRand
